@@ -25,7 +25,39 @@ TypedDict, Callable, thrift enums, `super` objects, mock classes, extensions.
 -/
 namespace Pya
 
-/-! ### `Value.__eq__` -/
+/-! ### `Value.__hash__` (value.py:632 `KnownValue.__hash__`, dataclass hashes elsewhere)
+
+`Ty.hashEq a b` models `hash(a) == hash(b)` (no accidental collisions): structural and
+**order-sensitive on unions** (dataclass hash of the `vals` tuple), type-sensitive on literals
+(`hash((type(val), val))`), and *never* equal for two distinct unhashable literals (identity hash;
+the model cannot see object identity, the correspondence builds distinct objects). Defined before
+`Ty.beq` because `MultiValuedValue.__eq__` compares `set(vals)`, i.e. looks members up by hash. -/
+mutual
+def Ty.hashEq : Ty → Ty → Bool
+  | .any, .any => true
+  | .known a, .known b => a.hashable && b.hashable && Obj.same a b
+  | .typed c, .typed d => c == d
+  | .newtype n c, .newtype m d => n == m && c == d
+  | .generic c as, .generic d bs => c == d && Ty.hashEqList as bs
+  | .seq c as, .seq d bs => c == d && Ty.hashEqList as bs
+  | .many a, .many b => Ty.hashEq a b
+  | .union as, .union bs => Ty.hashEqList as bs
+  | .subclass c, .subclass d => c == d
+  | .annotated a, .annotated b => Ty.hashEq a b
+  | .tvar i, .tvar j => i == j
+  | _, _ => false
+def Ty.hashEqList : List Ty → List Ty → Bool
+  | [], [] => true
+  | a :: as, b :: bs => Ty.hashEq a b && Ty.hashEqList as bs
+  | _, _ => false
+end
+
+/-! ### `Value.__eq__`
+
+`MultiValuedValue.__eq__` (value.py) is `self.vals == other.vals or set(self.vals) == set(other.vals)`:
+the tuple comparison is member-wise `==` (`beqList`); the set comparison looks every member up
+by hash **and** `==` (`subsetH` both ways), so two members that are `==` but hash differently
+(separately built unhashable literals, reordered nested unions) do not match. -/
 mutual
 def Ty.beq : Ty → Ty → Bool
   | .any, .any => true
@@ -35,7 +67,7 @@ def Ty.beq : Ty → Ty → Bool
   | .generic c as, .generic d bs => c == d && Ty.beqList as bs
   | .seq c as, .seq d bs => c == d && Ty.beqList as bs
   | .many a, .many b => Ty.beq a b
-  | .union as, .union bs => Ty.beqList as bs || (Ty.subsetBy as bs && Ty.subsetBy bs as)
+  | .union as, .union bs => Ty.beqList as bs || (Ty.subsetH as bs && Ty.subsetH bs as)
   | .subclass c, .subclass d => c == d
   | .annotated a, .annotated b => Ty.beq a b
   | .tvar i, .tvar j => i == j
@@ -54,6 +86,16 @@ termination_by a b => sizeOf a + sizeOf b
 def Ty.memBy : Ty → List Ty → Bool
   | _, [] => false
   | a, b :: bs => Ty.beq a b || Ty.memBy a bs
+termination_by a b => sizeOf a + sizeOf b
+/-- every element of the first list is found in `set(second)`: same hash and `==` -/
+def Ty.subsetH : List Ty → List Ty → Bool
+  | [], _ => true
+  | a :: as, bs => Ty.memH a bs && Ty.subsetH as bs
+termination_by a b => sizeOf a + sizeOf b
+/-- `a in set(bs)`: some stored `b` has the same hash and is `==` -/
+def Ty.memH : Ty → List Ty → Bool
+  | _, [] => false
+  | a, b :: bs => (Ty.hashEq b a && Ty.beq b a) || Ty.memH a bs
 termination_by a b => sizeOf a + sizeOf b
 end
 
